@@ -153,6 +153,34 @@ def std_summaries(program: Program) -> Dict[str, Callable]:
     return out
 
 
+def new_yaml2regex(I: Interp, docv: Value, terminal: Value = NONE) -> Obj:
+    """a Yaml2Regex object as the program makes it: the real __init__ runs (whatever state it sets up exists afterwards),
+    with the read of the rule file replaced by the skeleton document. The two full-match flags that __init__ loaded from the
+    (config-less) skeleton are then forgotten again - unset reads as opaque - so the compile is explored under all four
+    settings, as for an object whose rule file carried any of them."""
+    y2r = I.p.find_class("Yaml2Regex")
+    if y2r is None:
+        raise AnalysisError("anchor class Yaml2Regex not found")
+    if y2r.find_method("load_file") is None:
+        raise AnalysisError("anchor Yaml2Regex.load_file not found")
+    prev = I.summaries.get("Yaml2Regex.load_file")
+    I.summaries["Yaml2Regex.load_file"] = lambda I_, f, s_, a, k, n, fr: docv
+    try:
+        o = I.construct(y2r, [Str((Hole("RULE", "path", True),))] + ([] if terminal is NONE else [terminal]), {}, None, None)
+    finally:
+        if prev is None:
+            I.summaries.pop("Yaml2Regex.load_file", None)
+        else:
+            I.summaries["Yaml2Regex.load_file"] = prev
+    if not isinstance(o, Obj):
+        raise AnalysisError(f"Yaml2Regex(...) gives {o!r}")
+    cfg = I.run.const_cache.get(("$cfg", "obj"))
+    store = cfg.fields.get("global_info") if isinstance(cfg, Obj) else None
+    if isinstance(store, DictV):
+        store.pairs[:] = [(k, v) for k, v in store.pairs if cfg_key(k) not in ("MnemonicsFullMatch", "OperandsFullMatch")]
+    return o
+
+
 def rule_tree_call(I: Interp, y2r, self_obj, pats) -> Value:
     """the typed rule tree Yaml2Regex builds from the expanded patterns: the private step of produce_regex that
     receives what _get_pattern returned (found by that role when it is not called _generate_rule_tree)"""
@@ -257,7 +285,7 @@ def compile_skeleton(I: Interp, pattern: Any, config: Optional[dict] = None) -> 
 
     def thunk(I: Interp) -> Value:
         doc = {"pattern": pattern}
-        self_obj = Obj(y2r, {"loaded_file": lift_skeleton(I, doc), "macros_from_terminal_filepath": NONE})
+        self_obj = new_yaml2regex(I, lift_skeleton(I, doc))
         pats = I.call_func(y2r.find_method("_get_pattern"), [], {}, self_obj, None, None)
         tree = rule_tree_call(I, y2r, self_obj, pats)
         I.run.user["tree"] = tree
